@@ -182,6 +182,10 @@ void hx_emit_script_violation(const char *prop, const char *kind, const char *ms
 void hx_report_verdicts(const hx_script *s, const hx_obs *o, const char *only_props);
 const char *hx_sites_str(uint64_t sites);
 
+/* engines that do not go through hx_run(): announce each evaluation (returns 1 if it must be skipped because it
+ * crashed a previous incarnation of the worker) and provide a describer that renders the input in flight */
+extern const char *(*hx_inflight_describe)(void);
+int hx_inflight_tick(void);
 typedef int (*hx_worker_fn)(int argc, char **argv);
 int  hx_supervise(int argc, char **argv, hx_worker_fn fn);   /* fork/restart on crash */
 int  hx_deadline_hit(void);
